@@ -33,6 +33,7 @@ def run(chk, replay):
     chk.model("Dispatch.tla", "Dispatch.cfg")
     chk.exhaustive = True
     scs = [gen_claim.request_scenario(chk.seed * 49979687 + i) for i in range(400 if quick else 6000)]
+    scs = scs + gen_claim.reactive(chk.tier)       # applications that call into their CA from inside a delivery callback
     traces = [scen_claim.run(sc)[0] for sc in scs]
     chk.validate("ClaimTrace.tla", "ClaimTrace.cfg", traces, "main", nontrivial=nontrivial)
 
